@@ -310,10 +310,13 @@ pub open spec fn val_eq(a: Val, b: Val) -> bool
 // ---- membership --------------------------------------------------------------------------------------
 pub uninterp spec fn str_contains(hay: Seq<char>, needle: Seq<char>) -> bool;
 
+pub open spec fn list_has(l: Seq<Val>, x: Val) -> bool { exists|j: int| 0 <= j < l.len() && val_eq(#[trigger] l[j], x) }
+pub open spec fn map_has_key(m: Map<String, Val>, k: Seq<char>) -> bool { exists|ks: String| #[trigger] m.dom().contains(ks) && ks@ == k }
+
 pub open spec fn t_contains(c: Val, i: Val) -> Res {
     match (c, i) {
-        (Val::Map(m), Val::Str(k)) => ok_bool(exists|ks: String| #[trigger] m.dom().contains(ks) && ks@ == k),
-        (Val::List(l), x) => ok_bool(exists|j: int| 0 <= j < l.len() && val_eq(#[trigger] l[j], x)),
+        (Val::Map(m), Val::Str(k)) => ok_bool(map_has_key(m, k)),
+        (Val::List(l), x) => ok_bool(list_has(l, x)),
         (Val::Str(h), Val::Str(n)) => ok_bool(str_contains(h, n)),
         (Val::Int(f), Val::Int(g)) => ok_bool(((f as i128) & (g as i128)) != 0),           // [pinned] flag test
         (Val::None, _) => ok_bool(false),
